@@ -11,8 +11,9 @@ import (
 	"github.com/theory/sqljson/path/types"
 )
 
-var jsonNumRe = regexp.MustCompile(`^-?(0|[1-9][0-9]*)(\.[0-9]+)?([eE][+-]?[0-9]+)?$`)
-var intStrRe = regexp.MustCompile(`^-?(0|[1-9][0-9]*)$`)
+// (redundant leading zeros are still a decimal numeral: "010" is ten)
+var jsonNumRe = regexp.MustCompile(`^-?[0-9]+(\.[0-9]+)?([eE][+-]?[0-9]+)?$`)
+var intStrRe = regexp.MustCompile(`^-?[0-9]+$`)
 var hasDigit = regexp.MustCompile(`[0-9]`)
 
 // numericInput classifies the input of a numeric conversion method.
@@ -101,6 +102,11 @@ func isTie(r *big.Rat) bool {
 	return d.IsInt() && !r.IsInt()
 }
 
+// NumberAsDouble selects between behaviours the statement leaves open: the
+// value .number() returns for an integer is pinned, whether it then counts as
+// an integer or as a double operand of later arithmetic is not.
+var NumberAsDouble = false
+
 // Method is the leaf oracle of the conversion methods (everything except
 // type, size, keyvalue and the datetime methods). p and s are the decimal()
 // arguments.
@@ -118,6 +124,11 @@ func Method(name string, v any, p, s *int64) (any, error) {
 					return -float64(i), nil
 				}
 				return -i, nil
+			}
+			if i == math.MinInt64 {
+				// the value is pinned, its representation (integer or double)
+				// is not - and decides later arithmetic
+				return nil, unspec("representation of the minimum int64 after " + name + "()")
 			}
 			return i, nil
 		}
@@ -140,7 +151,7 @@ func Method(name string, v any, p, s *int64) (any, error) {
 					return nil, unspec("integer beyond float64 precision")
 				}
 			}
-			if name == "number" && new(big.Rat).SetFloat64(f).Cmp(r) == 0 {
+			if name == "number" && !NumberAsDouble && new(big.Rat).SetFloat64(f).Cmp(r) == 0 {
 				return i, nil // same value
 			}
 			return f, nil
